@@ -77,7 +77,7 @@ def ob_lb_add(bits, width, depth, same_key, timeout_ms):
     c0, c1 = (ev(m, calls[0]["counter"]), ev(m, calls[0]["new"])) if calls else (0, 0)
     vv = ev(m, v)
     cex = {"kind": "log-step", "bits": bits, "width": width, "depth": depth, "max_count": cfg[0], "num_reserved": nrv, "clause": "lower bound min(true, num_reserved+1)",
-           "table": [ev(m, c) for c in pre[sk.cms.sid]], "col_key": [ev(m, c) for c in colj], "col_other": [ev(m, c) for c in colk], "value": min(vv, 1 << 20),
+           "table": [ev(m, c) for c in pre[sk.cms.sid]], "col_key": [ev(m, c) for c in colj], "col_other": [ev(m, c) for c in colk], "value": min(vv, 1 << 20), "value_model": vv,
            "draws": ([0.0] * max(0, c1 - c0) + [0.9999999999999999] * 64)[:2048], "true_before": ev(m, f)}
     return {"status": "cex", "stats": stats.as_dict(), "funcs": funcs, "cex": cex, "replay": replay(cex), "finding_key": f"log{bits}-lower-bound"}
 
@@ -220,6 +220,20 @@ def replay(cex):
                 rp = {"reproduced": True, "how": "fresh real log sketch, adds through the public API", "failed_clauses": fails[:3]}
         except Exception:
             pass
+        vm = cex.get("value_model", 0)
+        if not rp.get("reproduced") and vm > (1 << 20):
+            # the model's multiplicity itself (a correct kernel loops vm times: run in a child under a time limit)
+            def big():
+                sk2 = logh.make_real_log(cex["bits"], 1, 1, cex["max_count"], cex["num_reserved"])
+                sk2.add(b"k", vm)
+                return float(sk2.query(b"k")), int(sk2.n_added())
+            res = common.call_with_timeout(big, 240)
+            if res is not None:
+                est, nadd = res
+                want = min(vm, cex["num_reserved"] + 1)
+                if est < want:
+                    rp = {"reproduced": True, "how": "fresh real log sketch; one add(key, v) with the model's multiplicity through the public API",
+                          "failed_clauses": [f"add(key, {vm}): estimate {est} < min(true count, num_reserved+1) = {want} (n_added() = {nadd})"]}
         return rp
     if k == "counter2value":
         c, nr = cex["counter"], cex["num_reserved"]
@@ -240,9 +254,19 @@ def replay(cex):
             if float(v) != float(b0[p]) or int(q) != p + 1 or (batch != b0).any():
                 fails.append(f"_rand(batch, {p}) -> ({float(v)}, {int(q)}); expected (batch[{p}]={float(b0[p])}, {p + 1}) and an untouched batch")
         v, q = C._rand(batch, np.uint64(2048))
-        if int(q) != 1 or float(v) != float(batch[0]) or (batch == b0).sum() > 8:
-            fails.append(f"_rand(batch, 2048): pointer {int(q)}, returned {float(v)}, {int((batch == b0).sum())} of 2048 draws recycled")
-        return {"reproduced": bool(fails), "how": "jitted _rand on a concrete batch (kernel level)", "failed_clauses": fails[:3]}
+        if int(q) != 1 or float(v) != float(batch[0]) or (batch == b0).sum() > 0:
+            fails.append(f"_rand(batch, 2048): pointer {int(q)}, returned {float(v)}, {int((batch == b0).sum())} of 2048 draws recycled (slots {np.nonzero(batch == b0)[0][:4].tolist()})")
+        # public level: a real sketch whose pool has been used up keeps none of its old draws
+        try:
+            sk = logh.make_real_log(8, 1, 1, logh.CONFIGS[8][0][0], 0)
+            r0 = np.array(sk.rand_nums).copy()
+            sk.add(b"k", 6000)
+            r1 = np.array(sk.rand_nums)
+            if int(sk.n_added()) == 6000 and (r0 == r1).any():
+                fails.append(f"CountMinLog8: after 6000 unit adds (pool of 2048 used up at least twice) slots {np.nonzero(r0 == r1)[0][:4].tolist()} of rand_nums still hold the draws from construction time")
+        except Exception:
+            pass
+        return {"reproduced": bool(fails), "how": "jitted _rand on a concrete batch (kernel level) + CountMinLog8.add through the public API watching rand_nums", "failed_clauses": fails[:3]}
     return {"reproduced": False, "how": "unknown kind"}
 
 
